@@ -2,6 +2,7 @@ import PEval.Driver.Util
 import PEval.Model.Matching
 import PEval.Model.MatchDispatch
 import PEval.Model.MatchHeap
+import PEval.Lemmas.MatchingCertificate
 /-! Driver handler for C01 (and, through `C02.lean`, C02): runs `Matching.getObjectResults`.
 
 Request: `{"op":"match","policy":"DEFAULT|ALLOW_UNKNOWN|ALLOW_ANY","mode":"center|plane|iou2d|iou3d",
@@ -19,7 +20,12 @@ to the response (the table only on the geometric path).  On the geometric path a
 carries `"heap"`: the run of the heap model `MatchHeap.getObjectResultsH` on the store `[[0..nE-1],[nE..nE+nG-1]]`
 (caller's estimate list at address 0, ground-truth list at address 1; object `k` of the estimates is reference `k`,
 object `k` of the ground truths reference `nE+k`): `{"ests_after":[…],"gts_after":[…],"results":[[e,g|null]…]|null}` =
-the content of the caller's two lists after the call and the results as object references. -/
+the content of the caller's two lists after the call and the results as object references.
+Optional request field `"cert":{"s1":[[i,j]…],"s2":[[i,j]…]}` (geometric path, no table error): an order in which the REAL
+code's pairs could have been picked (compatible-only stage, label-blind stage); the response then carries
+`"admits":bool` = `Matching.checkTwoStage` accepts it (`C02.certificate_sound`: an accepted certificate is a run of the
+documented any-best relation, so the real outcome only differs from the model's in the winner of exact ties) and, when
+accepted, `"admit_left":[i…]` = the estimates that run leaves unpaired. -/
 open Lean
 
 namespace PEval.Driver.C01
@@ -116,6 +122,24 @@ def decodeSceneX (j : Json) : Except String SceneX := do
   let gs ← decodeSide j "gt" sc.gts
   pure { is2d := is2d, ests := es, gts := gs, val := sc.val }
 
+def decodePicks (j : Json) (k : String) : Except String (List (Nat × Nat)) := do
+  (← getArr j k).toList.mapM fun x => match x with
+    | .arr #[a, b] => do pure ((← a.getNat?), (← b.getNat?))
+    | _ => throw s!"{k}: expected [i,j]"
+
+/-- the certificate check of an alternative tie winner (see the module docstring) -/
+def certJson (j : Json) (c : Cfg) (sc : Scene) : Except String (List (String × Json)) :=
+  match optField j "cert" with
+  | none => pure []
+  | some cj => do
+    let p1 ← decodePicks cj "s1"
+    let p2 ← decodePicks cj "s2"
+    if (tableError c sc).isSome || sc.ests.isEmpty || sc.gts.isEmpty then pure []
+    else
+      match checkTwoStage (mkTbl c sc) (List.range sc.ests.length) (List.range sc.gts.length) p1 p2 with
+      | some st => pure [("admits", Json.bool true), ("admit_left", jList jNat st.es)]
+      | none => pure [("admits", Json.bool false)]
+
 def pathName : Option Path → String
   | none => "early"
   | some .tlr => "tlr"
@@ -171,7 +195,8 @@ def handle : Json → Except String Json := fun j => do
       if wantTable && path == some .geometric then [("table", tableJson c sc)] else []
     let hp : List (String × Json) :=
       if path == some .geometric || path == none then [("heap", heapJson c sc)] else []
-    let pj : List (String × Json) := [("path", Json.str (pathName path))] ++ hp
+    let cert ← if path == some .geometric then certJson j c sc else pure []
+    let pj : List (String × Json) := [("path", Json.str (pathName path))] ++ hp ++ cert
     match MatchDispatch.getObjectResultsXE uf c sx with
     | .ok rs => pure (Json.mkObj ([("results", jList resJson rs)] ++ pj ++ tbl))
     | .error k => pure (Json.mkObj ([("err", Json.str k)] ++ pj))
